@@ -6,9 +6,9 @@ from harness import core, pipeline
 from harness.props import classmodel, dispatch
 
 
-def cfg(kinds, ops, hist, acts="AAll"):
-    return ("CONSTANTS\n Kinds <- %s\n Acts <- %s\n MaxOps = %d\n RecordHist = %s\nINIT Init\nNEXT Next\nCHECK_DEADLOCK FALSE\n%s\n"
-            % (kinds, acts, ops, "TRUE" if hist else "FALSE",
+def cfg(kinds, ops, hist, acts="AAll", clamp=False):
+    return ("CONSTANTS\n Kinds <- %s\n Acts <- %s\n MaxOps = %d\n RecordHist = %s\n Clamp = %s\nINIT Init\nNEXT Next\nCHECK_DEADLOCK FALSE\n%s\n"
+            % (kinds, acts, ops, "TRUE" if hist else "FALSE", "TRUE" if clamp else "FALSE",
                "INVARIANT Emit" if hist else "INVARIANT TypeOK\nINVARIANT Mirror\nPROPERTY OverrideEnds"))
 
 
@@ -19,9 +19,16 @@ def run(prop, tier, seed):
     tol = [e["tag"] for e in core.KnownFindings(prop).open]
     with core.Scratch() as scratch:
         props = [{"module": M, "cfg": "%s_p.cfg" % prop, "extra_defs": {"%s_p.cfg" % prop: cfg("KAll", 2 if quick else 3, False)}}]
-        gens = [{"module": M, "cfg": "%s_g.cfg" % prop, "workers": 8, "extra_defs": {"%s_g.cfg" % prop: cfg("KAll", 1 if quick else 2, True)}},
+        gens = [{"module": M, "cfg": "%s_g.cfg" % prop, "workers": 8, "extra_defs": {"%s_g.cfg" % prop: cfg("KNoK" if quick else "KAll", 1 if quick else 2, True)}},
                 {"module": M, "cfg": "%s_s.cfg" % prop, "workers": 8, "simulate": 500 if quick else 20000, "depth": 10, "seed": seed,
-                 "extra_defs": {"%s_s.cfg" % prop: cfg("KAll", 6, True)}}]
+                 "extra_defs": {"%s_s.cfg" % prop: cfg("KAll", 6, True)}},
+                # the same with target Parameters shared by all instances (per_instance=False)
+                {"module": M, "cfg": "%s_sn.cfg" % prop, "workers": 8, "simulate": 250 if quick else 10000, "depth": 10, "seed": seed + 1,
+                 "opts": {"perinst": False}, "extra_defs": {"%s_sn.cfg" % prop: cfg("KAll", 6, True)}},
+                # sources that clamp their own value while it is being dispatched
+                {"module": M, "cfg": "%s_gc.cfg" % prop, "workers": 8, "extra_defs": {"%s_gc.cfg" % prop: cfg("KClamp", 1 if quick else 2, True, clamp=True)}},
+                {"module": M, "cfg": "%s_sc.cfg" % prop, "workers": 8, "simulate": 250 if quick else 10000, "depth": 10, "seed": seed + 2,
+                 "extra_defs": {"%s_sc.cfg" % prop: cfg("KClamp", 6, True, clamp=True)}}]
         box = {}
         stages = []
         if prop == "C02":
